@@ -42,8 +42,8 @@ Proof. exact checked_try_pod_read_unaligned_char. Qed.
 
 Example C03_nonvacuous :
   value_of (mkTy 2 2) [1; 128] /\
-  Root.try_cast (mkEnv (fun _ => false) (fun _ => 0)) (mkTy 2 2) (mkTy 2 1) [1; 128] = Ret (Ok [1; 128]) /\
-  Root.try_cast (mkEnv (fun _ => false) (fun _ => 0)) (mkTy 2 2) (mkTy 4 4) [1; 128] = Ret (Err SizeMismatch).
+  Root.try_cast (mkEnv (fun _ => false) (fun _ => 0) (fun _ _ => 0)) (mkTy 2 2) (mkTy 2 1) [1; 128] = Ret (Ok [1; 128]) /\
+  Root.try_cast (mkEnv (fun _ => false) (fun _ => 0) (fun _ _ => 0)) (mkTy 2 2) (mkTy 4 4) [1; 128] = Ret (Err SizeMismatch).
 Proof. repeat split; reflexivity. Qed.
 
 Print Assumptions C03_try_cast.
